@@ -856,12 +856,19 @@ class Gen:
                         # ... or an enum whose variants serialize as maps (serde refuses the others at run time)
                         if i.kind == "named":
                             return i.tag is None
+                        if i.kind == "unit":
+                            return True         # (a unit struct adds nothing to the tag object)
                         if i.kind != "enum" or i.untagged or self.r.random() < 0.5:
                             return False
                         return self.flatten_clean(i) or self.r.random() < 0.08
                     t = self.user_ref(it.params, pred=mapish) if self.r.random() < 0.85 else None
                     if t is None:
                         t = Ty("map", "BTreeMap", args=[prim("String"), self.ty(1, it.params)])
+                    if self.r.random() < 0.06:
+                        t = prim("()")
+                        v.tags.append("k:internal-newtype-unit")
+                    elif t.kind == "user" and t.item.kind == "unit":
+                        v.tags.append("k:internal-newtype-unit")
                     f = Field(None, t)
                     if self.p.inline and t.kind == "user" and self.inlineable(t) and self.r.random() < 0.35:
                         f.inline = True
